@@ -201,6 +201,6 @@ def run(facts, tier):
     reach, _ = facts.reachable(roots)
     c03.r03_3(facts, res, "R02-2r", reach, {})
     import guards
-    guards.rule(facts, res, "R02-2g", [facts.fns[x] for x in reach if x in facts.fns], want=("G1", "G2", "G3"), floor=1)
+    guards.rule(facts, res, "R02-2g", [facts.fns[x] for x in reach if x in facts.fns], want=("G1", "G2", "G3", "G4"), floor=1)
     res.functions_analysed = res.extra["grammar"]["productions"]
     return res
